@@ -123,6 +123,14 @@ def unmodified(v, o, base):
         return sem.failed(o, is_base)
     return False
 
+def wraps_stream(v, o, res):
+    """v is Ok(EntryStream { stream: <Ok payload of res>, conn: self }) on a path where res succeeded."""
+    c = canon_result(v)
+    if c[0] == 'ok' and c[1][0] == 'struct' and c[1][1] == 'sync::EntryStream' and c[1][3] is None:
+        fl = dict(c[1][2])
+        return set(fl) == {'stream', 'conn'} and fl['stream'] == ('variant', res, 'Ok', 0) and fl['conn'] == SELF and sem.succeeded(o, lambda x: x == res)
+    return False
+
 def own_params(B):
     return [t for i, t in sorted((d['idx'], ('param', d['name'])) for b, d in B.defs.items() if d['kind'] == 'param' and not d['proj'])]
 
@@ -156,25 +164,26 @@ def run(ctx):
             continue
         n_deleg += 1
         check_signature(ctx, f, m, sp, ap)
-        # which of the two (sound) criteria is applied: a body that drives a future or calls the sibling is held to (A)
-        blocks = any(n['k'] == 'MethodCall' and (callee_of(n) or '').endswith('Runtime::block_on') for n, c in walk(B.root))
+        # either of the two (sound) criteria suffices: a body that calls the sibling is held to (A); any other body to (B), and if
+        # that fails for a body that drives a future, (A) says what is wrong with it as a delegation
+        blocks = any(n['k'] in ('Call', 'MethodCall') and (callee_of(n) or '').endswith('Runtime::block_on') for n, c in walk(B.root))
         calls_sibling = any(n['k'] in ('Call', 'MethodCall') and callee_of(n) == ap for n, c in walk(B.root))
-        if blocks or calls_sibling:
+        if calls_sibling:
             check_delegation(ctx, f, B, m, ap, LDAP, ('field', SELF, 'rt'))
-        else:
-            check_same_behaviour(ctx, f, B, m, sp, ap)
+        elif not check_same_behaviour(ctx, f, B, m, sp, ap, report=not blocks) and blocks:
+            check_delegation(ctx, f, B, m, ap, LDAP, ('field', SELF, 'rt'))
     ctx.floor('D', 'LdapConn operation/accessor/modifier methods', n_deleg, 19)
 
     # ---- constructors
     check_ctors(ctx, f)
 
     # ---- EntryStream
-    ES = 'ldap3::sync::EntryStream::<\'a, \'b, S, A>::'
+    es = {q.rsplit('::', 1)[-1]: q for q in f.hir if re.match(r'^ldap3::sync::EntryStream::<[^<>]*>::\w+$', q)}
     pairs = {'next': 'next', 'result': 'finish'}
     n_es = 0
     for m, target in pairs.items():
-        p = ES + m
-        if p not in f.hir:
+        p = es.get(m)
+        if p is None:
             ctx.fail('anchor-missing', 'EntryStream::' + m, '', 'public method not found'); continue
         B = hirq.Body(f, f.hir[p])
         ctx.analysed['bodies'].add(p)
@@ -183,8 +192,8 @@ def run(ctx):
         if len(tp) != 1:
             ctx.fail('anchor-missing', 'SearchStream::' + target, '', 'async sibling not found'); continue
         check_delegation(ctx, f, B, m, tp[0], ('field', SELF, 'stream'), ('field', ('field', SELF, 'conn'), 'rt'), rule='E')
-    p = ES + 'last_id'
-    if p in f.hir:
+    p = es.get('last_id')
+    if p is not None:
         B = hirq.Body(f, f.hir[p])
         ctx.analysed['bodies'].add(p)
         n_es += 1
@@ -237,11 +246,7 @@ def check_delegation(ctx, f, B, m, ap, recv_place, rt_place, rule='D'):
             ctx.add(rule + '.own-runtime', m, loc(node), not bos, 'a synchronous sibling needs no runtime')
             res = call_t
         v = o.val
-        ok = unmodified(v, o, res) or (not is_async and v == SELF and recv_place[0] == 'field')
-        c = canon_result(v)
-        if not ok and c[0] == 'ok' and c[1][0] == 'struct' and c[1][1] == 'sync::EntryStream' and c[1][3] is None:
-            fl = dict(c[1][2])
-            ok = set(fl) == {'stream', 'conn'} and fl['stream'] == ('variant', res, 'Ok', 0) and fl['conn'] == SELF and sem.succeeded(o, lambda x: x == res)
+        ok = unmodified(v, o, res) or (not is_async and v == SELF and recv_place[0] == 'field') or wraps_stream(v, o, res)
         ctx.add(rule + '.returns-result', m, loc(B.root), ok, 'the value of the delegate call is not returned unmodified (or wrapped as EntryStream { stream, conn: self }): %s' % absx.fmt(v)[:100])
         extra = effects(o, allowed=(ap,))
         ctx.add(rule + '.no-extra-effects', m, loc(B.root), not extra, '%s does something besides delegating: %s' % (m, extra[:3]))
@@ -295,9 +300,10 @@ def norm_paths(f, B, side):
         kind = 'return' if o.kind in ('val', 'ret') else o.kind
         v = o.val
         if kind == 'return':
-            # a Result handed on piecewise is the Result itself
+            # a Result handed on piecewise is the Result itself; so is (on the synchronous side) the Result of a stream whose Ok payload
+            # is wrapped as EntryStream { stream, conn: self } - the signatures say where that wrapping is due
             for b in absx.leaves(v, lambda x: x[0] in ('await', 'call')):
-                if unmodified(v, o, b):
+                if unmodified(v, o, b) or (side == 'sync' and wraps_stream(v, o, b)):
                     v = b; break
         pc = frozenset((tr(a), t) for a, t in o.st.pc)
         recs.append((kind, pc, tuple(evs), tr(v)))
@@ -324,13 +330,15 @@ def fmt_rec(r):
     return '%s %s after [%s]%s' % (kind, absx.fmt(v)[:80], '; '.join('%s %s' % (e[0], ' '.join(absx.fmt(x)[:50] if isinstance(x, tuple) else str(x).rsplit('::', 1)[-1] for x in e[1:])) for e in evs)[:160],
                                   (' if ' + ', '.join(('' if t else 'not ') + absx.fmt(a)[:40] for a, t in sorted(pc, key=str))) if pc else '')
 
-def check_same_behaviour(ctx, f, B, m, sp, ap):
+def check_same_behaviour(ctx, f, B, m, sp, ap, report=True):
     """(B) the synchronous method does, path by path, what the asynchronous body does on the connection's handle."""
     try:
         s = norm_paths(f, B, 'sync')
         a = norm_paths(f, hirq.Body(f, f.hir[ap]), 'async')
     except absx.TooManyPaths:
-        ctx.fail('D.same-body', m, loc(B.root), 'LdapConn::%s / Ldap::%s have too many paths to compare' % (m, m)); return
+        if report:
+            ctx.fail('D.same-body', m, loc(B.root), 'LdapConn::%s / Ldap::%s have too many paths to compare' % (m, m))
+        return False
     ctx.analysed['bodies'].add(ap)
     def rel(sv, av):
         # `&mut Self` is returned by both: the connection here, its handle there
@@ -351,14 +359,16 @@ def check_same_behaviour(ctx, f, B, m, sp, ap):
             detail += 'sync only: ' + fmt_rec(miss[0]) + ' | '
         if rest:
             detail += 'async only: ' + fmt_rec(rest[0])
-    ctx.add('D.same-body', m, loc(B.root), ok, detail[:600])
+    if ok or report:
+        ctx.add('D.same-body', m, loc(B.root), ok, detail[:600])
+    return ok
 
 
 # ---------------------------------------------------------------------------------------
 
 def norm_ty(t):
-    t = re.sub(r"ldap3::search::SearchStream<'a, S, A>", 'STREAM', t)
-    t = re.sub(r"ldap3::sync::EntryStream<'a, 'b, S, A>", 'STREAM', t)
+    t = re.sub(r"ldap3::search::SearchStream<[^<>]*>", 'STREAM', t)
+    t = re.sub(r"ldap3::sync::EntryStream<[^<>]*>", 'STREAM', t)
     t = re.sub(r"&'[a-z_0-9]+ ", '&', t)
     t = t.replace('ldap3::sync::LdapConn', 'SELF').replace('ldap3::ldap::Ldap', 'SELF')
     m = re.match(r'impl core::future::future::Future<Output = (.*)>$', t)
